@@ -52,6 +52,8 @@ def none_reaches_err(f, call):
         tg = none_t or {other}
         for t in tg:
             ok, why = errflow.err_arm_returns_err(f, t)
+            if not ok and _remainder_by_minus_one(f, t, call):
+                continue
             if not ok:
                 return False, "the None arm does not return Err (%s)" % why
         return True, ""
@@ -64,6 +66,40 @@ def none_reaches_err(f, call):
         if c.name in ("core::option::Option::and_then", "core::option::Option::map"):
             return none_reaches_err(f, c)
     return False, "None is not turned into an error (consumers %s)" % [c.name for c in sp.consumers]
+
+
+def _remainder_by_minus_one(f, t, call):
+    """`None if b == -1 => Ok(0)`: a checked remainder reports an overflow for MIN % -1 although the remainder (0) is
+    exact; the None arm may answer that one case, everything else in it must still be an error"""
+    if not call.name.endswith(("::checked_rem_euclid", "::checked_rem")) or len(call.args) < 2:
+        return False
+    from ..facts import const_int
+    divisor = {o.key() for o in flow.origins(f, call.args[1])}
+    reach = cfg.reach_from(f, t)
+    for sb in sorted(reach):
+        if f.term(sb)["k"] != "switch":
+            continue
+        cd = flow.cond_of(f, sb)
+        if cd.kind != "bin" or cd.rv["op"] not in ("Eq", "Ne"):
+            continue
+        for x, y in ((cd.rv["a"], cd.rv["b"]), (cd.rv["b"], cd.rv["a"])):
+            if "c" in x or "c" not in y or const_int(y) != -1:
+                continue
+            if not ({o.key() for o in flow.origins(f, x)} & divisor):
+                continue
+            eq_true = (cd.rv["op"] == "Eq") != cd.neg
+            special = {e[1] for e in cfg.bool_edges(f, sb, eq_true)}
+            other = {e[1] for e in cfg.bool_edges(f, sb, not eq_true)}
+            # the other side is an error; the special side returns the constant 0
+            if not all(errflow.err_arm_returns_err(f, o_)[0] for o_ in other):
+                return False
+            zero = False
+            for b_ in set().union(*[cfg.reach_from(f, s_) for s_ in special]) if special else ():
+                for c_ in f.calls():
+                    if c_.bb == b_ and any("c" in a_ and const_int(a_) == 0 for a_ in c_.args):
+                        zero = True
+            return zero
+    return False
 
 
 def roundtrip_guard(f, bb, src_local_roots):
@@ -302,6 +338,19 @@ def run(ctx):
             for c in calls:
                 ok, why = none_reaches_err(f, c)
                 ctx.ob("C08.N1.overflow-becomes-error", "%s%s|%s" % (tag, op, c.name.split("::")[-1]), ok, why, f.where(c.bb))
+                # N9: "always the exact result when operands and result fit": the one checked operation whose None
+                # covers a case with a representable result is the remainder (MIN % -1 overflows in the quotient, the
+                # remainder is 0): its None arm must answer that case
+                if c.name.endswith(("::checked_rem_euclid", "::checked_rem")) and c.dest is not None and "p" not in c.dest:
+                    sp_ = errflow.result_split(f, c.dest["l"])
+                    handled = False
+                    for (sb_, none_t, some_t, other_, adt_) in sp_.switches:
+                        for t_ in (none_t or {other_}):
+                            if _remainder_by_minus_one(f, t_, c):
+                                handled = True
+                    ctx.ob("C08.N9.remainder-by-minus-one-is-exact", "%s%s|%s" % (tag, op, c.name.split("::")[-1]), handled,
+                           "`i128::MIN %% -1` is reported as an overflow (the quotient overflows) although the remainder, 0, is "
+                           "exact and fits: the None arm of %s must return 0 for a divisor of -1" % c.name.split("::")[-1], f.where(c.bb))
             # operand order a OP b
             for c in calls:
                 a = flow.origins(f, c.args[0])
